@@ -315,75 +315,167 @@ def _pow_rational(case, stats):
 # generators
 # ---------------------------------------------------------------------------
 
-R_ = gen.interval_union
-DIVBASE = R_((0.25, 4), (-4, -0.25))
+# value specs for zeroth coefficients: ('iv', lo, hi[, specials]) = floats in [lo, hi]; ('abs', lo, hi) = +-[lo, hi]
+DIVBASE = ('abs', 0.25, 4.0)
+ANYBASE = ('iv', -4.0, 4.0, (0.0, 1.0, -1.0))
+POSBASE = ('iv', 0.3, 3.0)
+AWAYBASE = ('abs', 0.3, 3.0)
 
 
-def _dy(kmax=12, den=4.0, nonzero=False):
-    if nonzero:
-        return st.builds(lambda s, k: s * k / den, st.sampled_from([1, -1]), st.integers(1, kmax))
-    return st.integers(-kmax, kmax).map(lambda k: k / den)
+def _floats(lo, hi):
+    return st.floats(lo, hi, allow_nan=False, allow_infinity=False, allow_subnormal=False, width=64)
+
+
+def _snap(a):
+    """|v| < 1e-6 -> 0 (keeps the exact rational reference small; never leaves an interval used here)"""
+    a = np.array(a, dtype=np.float64)
+    a[np.abs(a) < 1e-6] = 0.0
+    return a
 
 
 @st.composite
-def _arr(draw, shape, elements, sparse=True):
+def _sparse_mask(draw, shape):
+    """0/1 mask: all ones (dense) in 3 of 4 draws, otherwise about a quarter of the entries kept.
+    (hnp.arrays(fill=just(0)) is not used: measured, it collapses to all-zero arrays in over half of the draws)"""
+    if draw(st.sampled_from(['dense', 'dense', 'dense', 'sparse'])) == 'dense' or not int(np.prod(shape, dtype=int)):
+        return np.ones(shape, dtype=np.int64)
+    m1 = draw(hnp.arrays(np.bool_, shape, elements=st.booleans(), fill=st.nothing()))
+    m2 = draw(hnp.arrays(np.bool_, shape, elements=st.booleans(), fill=st.nothing()))
+    return (m1 & m2).astype(np.int64)
+
+
+def _order_pattern(draw, hi):
+    """patterns along the order axis of the higher coefficients (D-1,P)+shape: dense / only one order non-zero /
+    x_1 = 0 with higher ones present / constant polynomial"""
+    n = hi.shape[0]
+    if n == 0:
+        return hi
+    mode = draw(st.sampled_from(['asis'] * 7 + ['single', 'skip1', 'const']))
+    if mode == 'single':
+        k = draw(st.integers(0, n - 1))
+        out = np.zeros_like(hi)
+        out[k] = hi[k]
+        return out
+    if mode == 'skip1':
+        hi = hi.copy()
+        hi[0] = 0
+        return hi
+    if mode == 'const':
+        return np.zeros_like(hi)
+    return hi
+
+
+@st.composite
+def _farr(draw, shape, lo, hi, sparse=True):
+    """float64 array with full-mantissa elements in [lo, hi]; one third of the draws sparse (mostly zero)"""
     shape = tuple(shape)
-    if sparse and draw(st.integers(0, 2)) == 0:
-        return draw(hnp.arrays(np.float64, shape, elements=elements, fill=st.just(0.0)))
-    return draw(hnp.arrays(np.float64, shape, elements=elements, fill=st.nothing()))
+    a = _snap(draw(hnp.arrays(np.float64, shape, elements=_floats(lo, hi), fill=st.nothing())))
+    if sparse and lo <= 0.0 <= hi:
+        a = a * draw(_sparse_mask(shape))
+    return a
+
+
+@st.composite
+def _iarr(draw, shape, lo, hi, sparse=True):
+    shape = tuple(shape)
+    a = draw(hnp.arrays(np.int64, shape, elements=st.integers(lo, hi), fill=st.nothing()))
+    if sparse and lo <= 0 <= hi:
+        a = a * draw(_sparse_mask(shape))
+    return a
+
+
+@st.composite
+def _signs(draw, shape):
+    return draw(hnp.arrays(np.int64, tuple(shape), elements=st.sampled_from([1, -1]), fill=st.nothing())).astype(np.float64)
+
+
+@st.composite
+def _dyarr(draw, shape, kmax=12, nonzero=False, sparse=True):
+    """dyadics k/4, |k| <= kmax (exact regime)"""
+    if nonzero:
+        return draw(_iarr(shape, 1, kmax, sparse=False)) * draw(_signs(shape)) / 4.0
+    return draw(_iarr(shape, -kmax, kmax, sparse=sparse)) / 4.0
+
+
+@st.composite
+def _spec_arr(draw, shape, spec):
+    shape = tuple(shape)
+    a = draw(_farr(shape, spec[1], spec[2], sparse=False))
+    if spec[0] == 'abs':
+        a = a * draw(_signs(shape))
+    if len(spec) > 3:
+        sp = np.array(spec[3], dtype=np.float64)
+        pick = draw(hnp.arrays(np.int64, shape, elements=st.integers(0, 4 * len(sp) - 1), fill=st.nothing()))
+        a = np.where(pick < len(sp), sp[np.minimum(pick, len(sp) - 1)], a)
+    return a
+
+
+def _spec_scalar(spec):
+    if spec[0] == 'abs':
+        s = st.builds(lambda sg, v: sg * v, st.sampled_from([1.0, -1.0]), _floats(spec[1], spec[2]))
+    else:
+        s = _floats(spec[1], spec[2]).map(lambda v: 0.0 if abs(v) < 1e-6 else v)
+    if len(spec) > 3:
+        s = st.one_of(s, s, st.sampled_from(list(spec[3])))
+    return s
 
 
 @st.composite
 def utpm_data(draw, D, P, shape, regime, cplx, divisor=False, base=None, base_im=None, mag=2.0):
-    """(D,P)+shape coefficients; divisor: zeroth coefficients with |.| >= 0.25 (real part, for complex data)"""
+    """(D,P)+shape coefficients; divisor: zeroth coefficients with |.| >= 0.25 (real part, for complex data);
+    zeroth coefficients are drawn independently per direction and element"""
     shape = tuple(shape)
     if regime == 'exact':
-        x0 = draw(_arr((1, P) + shape, _dy(nonzero=divisor), sparse=not divisor))
-        hi = draw(_arr((D - 1, P) + shape, _dy(8))) if D > 1 else np.zeros((0, P) + shape)
+        x0 = draw(_dyarr((1, P) + shape, 12, nonzero=divisor, sparse=False))
+        hi = _order_pattern(draw, draw(_dyarr((D - 1, P) + shape, 8))) if D > 1 else np.zeros((0, P) + shape)
         x = np.concatenate([x0, hi], axis=0)
         if cplx:
-            im = draw(_arr((D, P) + shape, _dy(8)))
-            x = x + 1j * im
+            x = x + 1j * draw(_dyarr((D, P) + shape, 8))
         return x
-    b = base if base is not None else (DIVBASE if divisor else st.one_of(gen.nice_floats(-4, 4), st.sampled_from([0.0, 1.0, -1.0])))
+    b = base if base is not None else (DIVBASE if divisor else ANYBASE)
+    x0 = draw(_spec_arr((1, P) + shape, b))
+    hi = _order_pattern(draw, draw(_farr((D - 1, P) + shape, -mag, mag))) if D > 1 else np.zeros((0, P) + shape)
+    x = np.concatenate([x0, hi], axis=0)
     if cplx:
-        return draw(gen.utpm_data(D, P, shape, b, mag=mag, cplx=True, base_im=base_im if base_im is not None else gen.nice_floats(-2, 2)))
-    return draw(gen.utpm_data(D, P, shape, b, mag=mag))
+        im0 = draw(_spec_arr((1, P) + shape, base_im if base_im is not None else ('iv', -2.0, 2.0)))
+        imh = draw(_farr((D - 1, P) + shape, -mag, mag)) if D > 1 else np.zeros((0, P) + shape)
+        x = x + 1j * np.concatenate([im0, imh], axis=0)
+    return x
 
 
 @st.composite
 def const_operand(draw, kind, shape, regime, divisor=False):
-    """constant operand descriptor of the given kind (shape only for ndarray kinds)"""
+    """constant operand descriptor of the given kind (shape only for ndarray kinds); scalars are stored as plain
+    Python numbers, the kind fixes the type handed to algopy"""
     ex = regime == 'exact'
-    if divisor:
-        fl = _dy(nonzero=True) if ex else DIVBASE
-        it = st.builds(lambda s, k: s * k, st.sampled_from([1, -1]), st.integers(1, 6))
-    else:
-        fl = _dy() if ex else st.one_of(gen.nice_floats(-4, 4), st.sampled_from([0.0, 1.0, -1.0, 2.0]))
-        it = st.integers(-6, 6)
-    im = _dy(8) if ex else st.one_of(gen.nice_floats(-2, 2), st.just(0.0))
-    if kind == 'pyint':
-        return {'kind': kind, 'v': draw(it)}
-    if kind == 'pyfloat':
-        return {'kind': kind, 'v': float(draw(fl))}
-    if kind == 'pycomplex':
-        return {'kind': kind, 'v': complex(draw(fl), draw(im))}
-    if kind == 'np.float64':
-        return {'kind': kind, 'v': float(draw(fl))}
-    if kind == 'np.float32':
-        return {'kind': kind, 'v': float(np.float32(draw(fl)))}
-    if kind == 'np.int64':
-        return {'kind': kind, 'v': int(draw(it))}
-    if kind == 'np.complex128':
-        return {'kind': kind, 'v': complex(draw(fl), draw(im))}
     shape = tuple(shape)
-    if kind == 'nd.float':
-        return {'kind': kind, 'v': draw(_arr(shape, fl, sparse=not divisor))}
+    if kind in ref.SCALAR_KINDS:
+        if divisor:
+            it = st.builds(lambda s, k: s * k, st.sampled_from([1, -1]), st.integers(1, 6))
+            fl = it.map(lambda k: k / 4.0) if ex else _spec_scalar(DIVBASE)
+        else:
+            it = st.integers(-6, 6)
+            fl = st.integers(-12, 12).map(lambda k: k / 4.0) if ex else _spec_scalar(('iv', -4.0, 4.0, (0.0, 1.0, -1.0, 2.0)))
+        im = st.integers(-8, 8).map(lambda k: k / 4.0) if ex else _spec_scalar(('iv', -2.0, 2.0, (0.0,)))
+        if kind in ('pyint', 'np.int64'):
+            return {'kind': kind, 'v': int(draw(it))}
+        if kind in ('pyfloat', 'np.float64'):
+            return {'kind': kind, 'v': float(draw(fl))}
+        if kind == 'np.float32':
+            return {'kind': kind, 'v': float(np.float32(draw(fl)))}
+        return {'kind': kind, 'v': complex(draw(fl), draw(im))}
     if kind == 'nd.int':
-        return {'kind': kind, 'v': draw(hnp.arrays(np.int64, shape, elements=it))}
+        if divisor:
+            return {'kind': kind, 'v': (draw(_iarr(shape, 1, 6, sparse=False)) * draw(_signs(shape))).astype(np.int64)}
+        return {'kind': kind, 'v': draw(_iarr(shape, -6, 6))}
+    if ex:
+        re = draw(_dyarr(shape, 12, nonzero=divisor))
+    else:
+        re = draw(_spec_arr(shape, DIVBASE)) if divisor else draw(_farr(shape, -4.0, 4.0))
+    if kind == 'nd.float':
+        return {'kind': kind, 'v': np.asarray(re, dtype=np.float64)}
     if kind == 'nd.complex':
-        re = draw(_arr(shape, fl, sparse=False))
-        imv = draw(_arr(shape, im))
+        imv = draw(_dyarr(shape, 8)) if ex else draw(_farr(shape, -2.0, 2.0))
         return {'kind': kind, 'v': np.asarray(re + 1j * imv, dtype=np.complex128)}
     raise KeyError(kind)
 
@@ -554,7 +646,6 @@ def inplace_cases(draw, op, fam, tier):
     return case
 
 
-POSBASE = R_((0.3, 3))
 
 
 @st.composite
@@ -572,8 +663,7 @@ def pow_cases(draw, kind, tier):
         if regime == 'exact':
             case['x'] = draw(utpm_data(D, P, shape, 'exact', xc))
         else:
-            base = st.one_of(R_((-3, 3)), st.sampled_from([0.0, 1.0, -1.0, 2.0]))
-            case['x'] = draw(utpm_data(D, P, shape, 'float', xc, base=base, mag=1.0))
+            case['x'] = draw(utpm_data(D, P, shape, 'float', xc, base=('iv', -3.0, 3.0, (0.0, 1.0, -1.0, 2.0)), mag=1.0))
     elif kind in ('negint', 'npint'):
         case['regime'] = 'float'
         if kind == 'negint':
@@ -587,24 +677,23 @@ def pow_cases(draw, kind, tier):
             if zero_ok and KF.is_open(KF_POWNPINT):
                 zero_ok = False
                 steered.append(KF_POWNPINT)
-        away = R_((0.3, 3), (-3, -0.3))
-        base = st.one_of(away, away, st.sampled_from([0.0, 1.0])) if zero_ok else away
-        case['x'] = draw(utpm_data(D, P, shape, 'float', xc, base=base, base_im=R_((-1, 1)), mag=1.0))
+        base = ('abs', 0.3, 3.0, (0.0, 1.0)) if zero_ok else AWAYBASE
+        case['x'] = draw(utpm_data(D, P, shape, 'float', xc, base=base, base_im=('iv', -1.0, 1.0), mag=1.0))
     elif kind in ('real', 'complex'):
-        fl = st.one_of(st.sampled_from([0.5, -0.5, 1.5, 2.0, 3.0, -1.0, 0.25, 0.0, 1.0]), gen.nice_floats(-3, 3))
+        fl = _spec_scalar(('iv', -3.0, 3.0, (0.5, -0.5, 1.5, 2.0, 3.0, -1.0, 0.25, 0.0, 1.0)))
         if kind == 'real':
             t = draw(st.sampled_from(['pyfloat', 'pyfloat', 'np.float64', 'np.float32']))
             v = draw(fl)
             case['r'] = float(np.float32(v)) if t == 'np.float32' else float(v)
         else:
             t = draw(st.sampled_from(['pycomplex', 'np.complex128']))
-            v = complex(draw(fl), draw(st.one_of(gen.nice_floats(-2, 2), st.sampled_from([0.0, 1.0]))))
+            v = complex(draw(fl), draw(_spec_scalar(('iv', -2.0, 2.0, (0.0, 1.0)))))
             case['r'] = v
             if v.imag != 0 and not xc and KF.is_open(KF_POWC):
                 xc = True
                 steered.append(KF_POWC)
         case['rk'] = t
-        case['x'] = draw(utpm_data(D, P, shape, 'float', xc, base=POSBASE, base_im=R_((-1, 1)), mag=1.0))
+        case['x'] = draw(utpm_data(D, P, shape, 'float', xc, base=POSBASE, base_im=('iv', -1.0, 1.0), mag=1.0))
     elif kind == 'rpow':
         kinds = ['pyint', 'pyfloat', 'pyfloat', 'np.float64', 'np.int64', 'np.float32']
         t = draw(st.sampled_from(kinds))
@@ -614,16 +703,16 @@ def pow_cases(draw, kind, tier):
         if t in ('pyint', 'np.int64'):
             case['r'] = draw(st.integers(1, 4))
         else:
-            v = draw(st.one_of(st.sampled_from([2.0, 0.5, 1.0, 3.0]), gen.nice_floats(0.2, 4)))
+            v = draw(_spec_scalar(('iv', 0.2, 4.0, (2.0, 0.5, 1.0, 3.0))))
             case['r'] = float(np.float32(v)) if t == 'np.float32' else float(v)
         case['rk'] = t
-        case['x'] = draw(utpm_data(D, P, shape, 'float', xc, base=R_((-2, 2)), base_im=R_((-1, 1)), mag=1.0))
+        case['x'] = draw(utpm_data(D, P, shape, 'float', xc, base=('iv', -2.0, 2.0), base_im=('iv', -1.0, 1.0), mag=1.0))
     elif kind == 'utpm':
         sa, sb, lab = draw(shape_pair(min(D, 4), P))
         case['shapes'] = lab
         yc = draw(st.integers(0, 3)) == 0
-        case['x'] = draw(utpm_data(D, P, sa, 'float', xc, base=POSBASE, base_im=R_((-1, 1)), mag=1.0))
-        case['y'] = draw(utpm_data(D, P, sb, 'float', yc, base=R_((-2, 2)), base_im=R_((-1, 1)), mag=1.0))
+        case['x'] = draw(utpm_data(D, P, sa, 'float', xc, base=POSBASE, base_im=('iv', -1.0, 1.0), mag=1.0))
+        case['y'] = draw(utpm_data(D, P, sb, 'float', yc, base=('iv', -2.0, 2.0), base_im=('iv', -1.0, 1.0), mag=1.0))
         shape = tuple(np.broadcast_shapes(sa, sb))
     else:
         raise KeyError(kind)
@@ -752,17 +841,17 @@ def buckets(tier):
                 heavy = (op in ('mul', 'truediv'))
                 bl.append(Bucket('%s:%s:%s' % (op, lk, rk),
                                  (lambda op=op, lk=lk, rk=rk: binary_cases(op, lk, rk, tier)), prop,
-                                 {'quick': 120, 'thorough': 2000}, nontrivial=_nontrivial, classes=_classes,
+                                 {'quick': 100, 'thorough': 1200}, nontrivial=_nontrivial, classes=_classes,
                                  weight=(3.0 if heavy else 1.0) * _heavy(lk, rk)))
     for op in OPS:
         for fam in ('utpm', 'pyscalar', 'npscalar', 'ndarray', 'alias'):
             bl.append(Bucket('i%s:%s' % (op, fam), (lambda op=op, fam=fam: inplace_cases(op, fam, tier)), prop,
-                             {'quick': 160, 'thorough': 2500}, nontrivial=_nontrivial, classes=_classes,
+                             {'quick': 140, 'thorough': 1500}, nontrivial=_nontrivial, classes=_classes,
                              weight=3.0 if fam in ('utpm', 'alias') else 1.5))
     for kind in ('int', 'negint', 'npint', 'real', 'complex', 'rpow', 'utpm'):
         slow = kind in ('real', 'complex', 'rpow', 'utpm')
         bl.append(Bucket('pow:' + kind, (lambda kind=kind: pow_cases(kind, tier)), prop,
-                         {'quick': 80 if slow else 150, 'thorough': 600 if slow else 2500},
+                         {'quick': 70 if slow else 120, 'thorough': 400 if slow else 1500},
                          nontrivial=_nontrivial, classes=_classes,
                          shards={'quick': 1, 'thorough': 3 if slow else 1}, weight=12.0 if slow else 4.0))
     return bl
